@@ -21,6 +21,6 @@ def gen(tier, rng):
     yield from _auto.make_gen("C16")(tier, rng)
     for prop, stride in REUSE.items():
         k = stride if tier == "quick" else max(1, stride // 3)
-        for i, (line, kind) in enumerate(_auto.make_gen(prop)("quick", rng)):
+        for i, (line, kind) in enumerate(_auto.make_gen(prop, also=False)("quick", rng)):
             if i % k == 0:
                 yield (line, f"{prop}/{kind}")
